@@ -112,29 +112,28 @@ Theorem C05_checked_is_run_wrapper : forall o accept r,
 Proof. exact checked_enc_run. Qed.
 Print Assumptions C05_checked_is_run_wrapper.
 
-(* regression witness.  Before fix 122e022 MapSeq.Xml (xmlseq.go) ran the tokenizer over an empty
-   string instead of its output (checked_at_empty): for an acceptor that accepts the empty document -
-   as encoding/xml does - such a check rejects nothing, so ill-formed bytes came back with a nil error
-   (MapSeq{r: {#text: a<, #seq: 0}}.Xml() returned <r>a<</r>, nil; oracle key
-   mapseq-xml-check-ignores-output).  The repaired code reads the output like the other three
-   encoders, i.e. it is checked_enc and C05_checked_sound applies to all four. *)
-Theorem C05_check_at_empty_vacuous : forall o accept r,
-  accept [] = true -> checked_at_empty o accept r = r.
-Proof. exact check_at_empty_vacuous_l. Qed.
-Print Assumptions C05_check_at_empty_vacuous.
+(* the check as every one of the four encoders applies it to its bytes (Map.Xml, Map.XmlIndent,
+   MapSeq.XmlIndent, and - since fix 122e022, which made it read the output instead of an empty
+   string - MapSeq.Xml): whatever bytes the encoder produced *)
+Theorem C05_checked_sound_bytes : forall o (accept : str -> bool) r b,
+  xmlCheckIsValid o = true -> checked_bytes o accept r = Ok b -> accept b = true.
+Proof. exact checked_bytes_sound_l. Qed.
+Print Assumptions C05_checked_sound_bytes.
+
+(* the instances for the two modelled encoders *)
+Theorem C05_map_xml_checked_sound : forall o accept m root its,
+  xmlCheckIsValid o = true -> checked_enc o accept (map_xml_items o m root) = Ok its -> accept (emit its) = true.
+Proof. exact map_xml_checked_sound_l. Qed.
+Print Assumptions C05_map_xml_checked_sound.
+Theorem C05_map_xml_indent_checked_sound : forall o accept m root its,
+  xmlCheckIsValid o = true -> checked_enc o accept (map_xml_indent_items o m root) = Ok its -> accept (emit its) = true.
+Proof. exact map_xml_indent_checked_sound_l. Qed.
+Print Assumptions C05_map_xml_indent_checked_sound.
 
 Local Open Scope string_scope.
 Local Open Scope list_scope.
 Definition ex_accept (b : str) : bool := negb (containsb (s "x<y") b).
 Definition ex_chk_opts : opts := mko (s "-") false false false false false false true true false false false true false false (s "#").
-Example C05_check_at_empty_unsound :
-  exists o accept its, xmlCheckIsValid o = true /\ accept [] = true /\
-    checked_at_empty o accept (Ok its) = Ok its /\ accept (emit its) = false /\
-    checked_enc o accept (Ok its) = Err EOther.
-Proof.
-  exists ex_chk_opts, ex_accept, [IOpen (s "a") []; IText (s "x<y"); IClose (s "a")].
-  vm_compute. repeat split.
-Qed.
 
 (* ---------------- non-vacuity ---------------- *)
 Definition ex_esc_opts : opts := mko (s "-") false false false false false false true true false false false true true false (s "#").
